@@ -99,6 +99,11 @@ impl HeaderSpec {
             VKind::Folded => {
                 let frags = 2 + rng.below(3);
                 let mut v = vec![];
+                // one in four starts with the line break: the whole value sits on the continuation line
+                if rng.below(4) == 0 {
+                    v.push(b'\n');
+                    v.push(b' ');
+                }
                 for i in 0..frags {
                     if i > 0 {
                         v.push(b'\n');
